@@ -103,6 +103,10 @@ func (m *ModSet) addMap(mt *types.Map) {
 }
 
 func (m *ModSet) addGhost(name string) {
+	if a, ok := ghostAliases[name]; ok {
+		m.put(compGhost(name), a)
+		return
+	}
 	m.put(compGhost(name), compInfo{kind: 'G', name: name})
 }
 
